@@ -27,6 +27,9 @@ func (w *World) oracleBroadcast(n *Node, p *Payload) {
 				if gap < sc.TimePerBlock {
 					w.violate("C16", "C16/proposals-closer-than-min", n, fmt.Sprintf("proposal %v after the previous one, minimum block time %v", gap, sc.TimePerBlock))
 				}
+				if ntx == 0 {
+					w.stats.Antecedents["empty-proposal"]++
+				}
 				if ntx == 0 && sc.MaxTimePerBlock > 0 && gap < sc.MaxTimePerBlock {
 					w.violate("C16", "C16/empty-proposal-before-max", n, fmt.Sprintf("empty proposal %v after the previous one, maximum block time %v", gap, sc.MaxTimePerBlock))
 				}
